@@ -231,7 +231,14 @@ def check(run):
             run.violation("class-dispatch-plain", case_d, pname, expected_class(code, rbit, True))
         if got_ph != (1, len(wire), flags, code, app, hbh, e2e):
             run.violation("decoded-header", case_d, got_ph, what="decoded (plain) header fields differ from the wire")
-        if got_avps != O.ref_parse_avps(wire[20:]):
+        try:
+            ref_avps = O.ref_parse_avps(wire[20:])
+        except ValueError as e:
+            # the bytes the library itself produced are not RFC 6733 framing
+            ref_avps = None
+            run.violation("encoded-wire-wellformed", case_d, str(e), "AVP framing per RFC 6733 4.1",
+                          what="the encoder emits an AVP whose length field is inconsistent with its header (" + str(e) + ")")
+        if ref_avps is not None and got_avps != ref_avps:
             run.violation("decoded-avps", case_d, len(got_avps), len(canon),
                           what="decoded AVP sequence differs from the wire")
         try:
@@ -266,8 +273,8 @@ def check(run):
             dec_meta.append(case_d)
 
         # search paths on the generically decoded message
-        if canon and idx % 2 == 0:
-            tree = O.ref_parse_avps(wire[20:])
+        if canon and idx % 2 == 0 and ref_avps is not None:
+            tree = ref_avps
             paths = []
             for _ in range(rng.randrange(1, 6)):
                 pth = []
